@@ -85,6 +85,37 @@ theorem C16_pdeathsig_before_traceme_family :
       | _, _ => false) = true := by
   decide +kernel
 
+open GoSandbox.Model.ForkSkeleton GoSandbox.Model.ForkOpts GoSandbox.Model.ForkChildRun in
+/-- the regenerated child, orphaned before the trace point (getppid answers a pid that is not the launcher's —
+pid 1 or any sub-reaper): it gives up with an error; it never makes itself traceable and never execs -/
+def orphanGivesUp (o : Opts) (adopter : Int) : Bool :=
+  match runChild (launchOf o) { fds := [(100, 50, true), (101, 50, true)], pipeIn := [0, 0, 0], ppidNow := adopter } with
+  | .ok out =>
+    let names := out.w.trace.reverse.map (fun s => sysName s.nr)
+    !out.w.execed && out.w.exited.isSome && !names.contains "ptrace" && !names.contains "execve" && !names.contains "execveat"
+  | .error _ => false
+
+open GoSandbox.Model.ForkSkeleton GoSandbox.Model.ForkOpts GoSandbox.Model.ForkChildRun in
+theorem C16_gen_orphan_gives_up :
+    ([({ ptrace := true, seccomp := true, syncFunc := true } : Opts), { ptrace := true }, { ptrace := true, seccomp := true, cred := true, syncFunc := true }].all
+      fun o => orphanGivesUp o 1 && orphanGivesUp o 77 && orphanGivesUp o 4242) = true := by
+  decide +kernel
+
+open GoSandbox.Model.ForkSkeleton GoSandbox.Model.ForkOpts in
+/-- the regenerated child asks for the parent-death signal AFTER its credential change (the kernel clears the
+setting whenever the effective ids change) and right before the parent check and PTRACE_TRACEME -/
+theorem C16_gen_pdeathsig_after_credentials :
+    ([({ ptrace := true, seccomp := true, syncFunc := true, cred := true } : Opts), { ptrace := true, cred := true },
+      { ptrace := true, seccomp := true, cred := true, dropCaps := true, ucas := true, syncFunc := true }].all fun o =>
+      match genLabels o with
+      | .ok l =>
+        (match l.findIdx? (· == Step.setuid), l.findIdx? (· == Step.prctl_pdeathsig), l.findIdx? (· == Step.ptrace_traceme) with
+         | some u, some p, some t => u < p && p + 2 == t && l.getD (p + 1) Step.execve == Step.getppid &&
+             l.count Step.prctl_pdeathsig == 1
+         | _, _, _ => false)
+      | .error _ => false) = true := by
+  decide +kernel
+
 /-! non-vacuity: the crash rule is exercised from states with messages in flight -/
 example : (reachable ⟨true, .execve false .runs⟩).any (fun s => !s.h2c.isEmpty && s.c == .started) = true := by decide +kernel
 
